@@ -52,7 +52,7 @@ CLAIMED = {
             "6.C12"),
     "C13": ("exploration",
             SIM + "2..5 overlapping prove requests on one shared ProvingSystem; every hand-over between handler goroutines is a tape decision at statement granularity of the repository's code (uniform, sticky, PCT, starve-one); per-request oracle",
-            "World S: at least two valid requests with distinct input hashes plus unsatisfiable, mis-shaped, malformed and non-POST ones overlap on one real server; handler goroutines are parked at the inserted yield points (about 60 on the request path incl. JSON decoding, shape validation, witness assembly, error mapping) and released one at a time by the tape, so orders such as 'A decoded its body, B decodes, A proves' are produced on purpose, replayed and shrunk. Each response is judged against its own request only (status, error code, proof verifying for its own hash), and two different requests must not receive the same proof. Coverage is measured as context switches actually taken (site of X -> next site of Y). The data-race clause is not decidable under a serialising scheduler (hand-overs create happens-before edges); it is not claimed by this check yet.",
+            "World S: at least two valid requests with distinct input hashes plus unsatisfiable, mis-shaped, malformed and non-POST ones overlap on one real server; handler goroutines are parked at the inserted yield points (about 60 on the request path incl. JSON decoding, shape validation, witness assembly, error mapping) and released one at a time by the tape, so orders such as 'A decoded its body, B decodes, A proves' are produced on purpose, replayed and shrunk. Each response is judged against its own request only (status, error code, proof verifying for its own hash), and two different requests must not receive the same proof. Coverage is measured as context switches actually taken (site of X -> next site of Y). The data-race clause is not decidable under a serialising scheduler (hand-overs create happens-before edges): run 1 of the check is therefore an explicitly UNCONTROLLED companion mode (the real server built with -race on loopback ports, 2-3 rounds of 3-5 free-running requests plus an overlapping scraper); a race-detector report is a violation flagged 'uncontrolled' (not minimised; replay re-runs the mix up to five times) and the responses are judged by the same per-request oracle.",
             "Trusted: yields only in repository code; gnark's internal worker goroutines run to completion inside one step.",
             "6.C13"),
     "C14": ("fault_enumeration",
@@ -67,7 +67,7 @@ CLAIMED = {
             "6.C19"),
     "C20": ("exploration",
             SIM + "conservation law over seeded concurrent request mixes with metrics scrapes scheduled as ordinary actions (also while handlers are parked mid-proof); final equality against the simulator's tally, mid-run bounds",
-            "World S: 2..7 requests of all kinds and methods overlap under tape-chosen scheduling; 1..2 scrapes of the separate metrics address are scheduled like any other client action and a final scrape follows the last response. Final: http_requests_total{endpoint_pattern=\"/prove\"} per (method label, code) equals the simulator's tally of responses sent, nothing is reported that was never sent, the sum equals the number of requests, the in-flight gauge exists and is 0. Mid-run: the scrape succeeds while k handlers are parked, and each total lies between responses already received and requests begun. Fault-injecting configurations (clients leaving before the response) are separate from fault-free ones and only widen the tally by an explicit slack.",
+            "World S: 2..7 requests of all kinds and methods overlap under tape-chosen scheduling; 1..2 scrapes of the separate metrics address are scheduled like any other client action and a final scrape follows the last response. Final: http_requests_total{endpoint_pattern=\"/prove\"} per (method label, code) equals the simulator's tally of responses sent, nothing is reported that was never sent, the sum equals the number of requests, the in-flight gauge exists and is 0. Mid-run: the scrape succeeds while k handlers are parked, and each total lies between responses already received and requests begun. Fault-injecting configurations (clients leaving before the response) are separate from fault-free ones and only widen the tally by an explicit slack. Run 1 is the uncontrolled companion mode (free-running goroutines on loopback): its scrape history is checked with porcupine against a per-(method, code) counter model (each request an increment inside its [call, return] interval, each scrape a read; Unknown is inconclusive, never reported), plus exact conservation at the final scrape.",
             "Trusted: Prometheus text exposition parsing; client_golang's documented method-label spelling.",
             "6.C20"),
     "C15": ("fault_enumeration",
